@@ -91,3 +91,128 @@ Example C03_sample_agrees :
   mout t_sample c_sample = Some (B "Hi BOB: 0,1,2 a|b&lt; adult B bob nonick 42/7"%string, Some EInterrupt) /\
   rout t_sample c_sample = (B "Hi BOB: 0,1,2 a|b&lt; adult B bob nonick 42/7"%string, SExit).
 Proof. vm_compute. split; reflexivity. Qed.
+
+(* ---- fuel is only a termination device (Proofs/FuelProofs.v) ---- *)
+From DT Require Import Proofs.FuelProofs Proofs.RefineRender.
+Local Open Scope Z_scope.
+
+(* an Out result is stable under more budget (and under an include renderer that answers at least
+   as often); only "out of fuel" / "unsupported" may change *)
+Theorem C03_budget_monotone_node : forall flits lookup b b' inc inc' n c w c' w' e,
+  (b <= b')%nat -> inc_le inc inc' ->
+  write_node flits lookup b inc n c w = Out c' w' e -> write_node flits lookup b' inc' n c w = Out c' w' e.
+Proof. exact budget_monotone_node. Qed.
+Print Assumptions C03_budget_monotone_node.
+
+Theorem C03_budget_monotone_nodes : forall flits lookup b b' inc inc' l c w c' w' e,
+  (b <= b')%nat -> inc_le inc inc' ->
+  run_nodes flits lookup b inc l c w = Out c' w' e -> run_nodes flits lookup b' inc' l c w = Out c' w' e.
+Proof. exact budget_monotone_nodes. Qed.
+Print Assumptions C03_budget_monotone_nodes.
+
+Theorem C03_budget_monotone_tpl : forall flits lookup b b' inc inc' t c w c' w' e,
+  (b <= b')%nat -> inc_le inc inc' ->
+  write_tpl flits lookup b inc t c w = Out c' w' e -> write_tpl flits lookup b' inc' t c w = Out c' w' e.
+Proof. exact budget_monotone_tpl. Qed.
+Print Assumptions C03_budget_monotone_tpl.
+
+(* only counter loops and includes can run out of fuel: a tree without them never does, whatever
+   the budget (even 0) and whatever the include renderer *)
+Theorem C03_out_of_fuel_only_from_loops : forall flits lookup budget inc n c w,
+  write_node flits lookup budget inc n c w = OutOfFuel -> fuel_free n = false.
+Proof. exact out_of_fuel_only_from_loops. Qed.
+Print Assumptions C03_out_of_fuel_only_from_loops.
+
+Theorem C03_out_of_fuel_only_from_loops_nodes : forall flits lookup budget inc l c w,
+  run_nodes flits lookup budget inc l c w = OutOfFuel -> forallb fuel_free l = false.
+Proof. exact out_of_fuel_only_from_loops_nodes. Qed.
+Print Assumptions C03_out_of_fuel_only_from_loops_nodes.
+
+(* a counter loop with an order comparison and the step in its direction, a fuel-free body and
+   else branch, and more budget than trips left at its (evaluated) bounds never runs out of fuel *)
+Theorem C03_loop_trip_bound :
+  forall flits lookup budget inc cnt init lim sep (initS limS : bool) condOp cntOp child c w,
+    forallb fuel_free child = true ->
+    (let cz := set_brkD 0 (set_cerr None c) in
+     let '(c1, v0) := cloop_range cz initS init in
+     let '(c2, limv) := cloop_range c1 limS lim in
+     match trips_left condOp cntOp v0 limv with Some d => (Z.to_nat d < budget)%nat | None => False end) ->
+    write_node flits lookup budget inc (NLoopCount cnt init lim sep initS limS condOp cntOp child) c w <> OutOfFuel.
+Proof. exact loop_trip_bound. Qed.
+Print Assumptions C03_loop_trip_bound.
+
+(* the loop driver itself: more fuel than trips left is enough ... *)
+Theorem C03_cloop_iter_bound :
+  forall bodyf elsef, (forall c w, NFi (bodyf c w)) -> (forall c w, NF (elsef c w)) ->
+  forall he cnt sep condOp cntOp limv idx saved fuel c w trips cur d,
+    trips_left condOp cntOp cur limv = Some d -> (Z.to_nat d < fuel)%nat ->
+    NF (cloop_iter bodyf elsef he cnt sep condOp cntOp limv idx saved fuel c w trips cur).
+Proof. exact cloop_iter_bound. Qed.
+Print Assumptions C03_cloop_iter_bound.
+
+(* ... more fuel never changes its result ... *)
+Theorem C03_cloop_iter_monotone :
+  forall bodyf bodyg elsef elseg,
+    (forall c w, le_it (bodyf c w) (bodyg c w)) -> (forall c w, le_out (elsef c w) (elseg c w)) ->
+    forall he cnt sep condOp cntOp limv idx saved fuel fuel' c w trips cur,
+      (fuel <= fuel')%nat ->
+      le_out (cloop_iter bodyf elsef he cnt sep condOp cntOp limv idx saved fuel c w trips cur)
+             (cloop_iter bodyg elseg he cnt sep condOp cntOp limv idx saved fuel' c w trips cur).
+Proof. exact cloop_iter_le. Qed.
+Print Assumptions C03_cloop_iter_monotone.
+
+(* ... and fuel 0 is hit exactly when another trip is due *)
+Theorem C03_cloop_iter_no_fuel :
+  forall bodyf elsef, (forall c w, NF (elsef c w)) ->
+  forall he cnt sep condOp cntOp limv idx saved c w trips cur,
+    cloop_iter bodyf elsef he cnt sep condOp cntOp limv idx saved 0 c w trips cur = OutOfFuel <->
+    exists a, cloop_allows condOp cur limv = Some a /\ a && (brkD c =? 0) = true.
+Proof. exact cloop_iter_no_fuel. Qed.
+Print Assumptions C03_cloop_iter_no_fuel.
+
+(* the reference semantics is monotone in the same sense: a result inside its domain is stable *)
+Theorem C03_ref_eval_monotone : forall flits rlookup b b' rinc rinc' a e o e1 s,
+  (b <= b')%nat -> rinc_le rinc rinc' ->
+  ref_eval flits rlookup b rinc a e = (o, e1, s) -> s <> SNA -> ref_eval flits rlookup b' rinc' a e = (o, e1, s).
+Proof. exact ref_eval_monotone. Qed.
+Print Assumptions C03_ref_eval_monotone.
+
+Theorem C03_ref_items_monotone : forall flits rlookup b b' rinc rinc' l e o e1 s,
+  (b <= b')%nat -> rinc_le rinc rinc' ->
+  ref_items flits rlookup b rinc l e = (o, e1, s) -> s <> SNA -> ref_items flits rlookup b' rinc' l e = (o, e1, s).
+Proof. exact ref_items_monotone. Qed.
+Print Assumptions C03_ref_items_monotone.
+
+(* refinement composed with monotonicity: if the reference semantics answers at budget b, the
+   model answers Out at every budget b' >= b, and the two agree *)
+Theorem C03_refines_any_larger_budget : forall flits lookup inc rlookup rinc,
+  lookup_ok lookup rlookup -> (forall L, inc_ok inc rlookup rinc L) ->
+  forall b b' items L, (b <= b')%nat -> forallb (wf_supported true) items = true ->
+  forall c w, Inv L c -> w_fail w = None ->
+  forall o e' s, ref_items flits rlookup b rinc items (abs c) = (o, e', s) -> sig_dom s ->
+  exists c' w' eo, run_nodes flits lookup b' inc (compile_tpl items) c w = Out c' w' eo /\
+                   wr_bytes w' = wr_bytes w ++ o /\ w_fail w' = None /\ post L s c' e' /\ sig_rel s eo.
+Proof. exact refines_any_larger_budget. Qed.
+Print Assumptions C03_refines_any_larger_budget.
+
+Theorem C03_refines_agree_at_larger_budget : forall flits lookup inc rlookup rinc,
+  lookup_ok lookup rlookup -> (forall L, inc_ok inc rlookup rinc L) ->
+  forall b b' items L, (b <= b')%nat -> forallb (wf_supported true) items = true ->
+  forall c w, Inv L c -> w_fail w = None ->
+  forall o e' s, ref_items flits rlookup b rinc items (abs c) = (o, e', s) -> sig_dom s ->
+  forall c' w' eo, run_nodes flits lookup b' inc (compile_tpl items) c w = Out c' w' eo ->
+  wr_bytes w' = wr_bytes w ++ o /\ w_fail w' = None /\ post L s c' e' /\ sig_rel s eo.
+Proof. exact refines_agree_at_larger_budget. Qed.
+Print Assumptions C03_refines_agree_at_larger_budget.
+
+Example C03_budget_example :
+  run_nodes [] (fun _ => None) 4 (fun _ _ => None) t_five ctx_new (wr_new None 0) = OutOfFuel /\
+  (match run_nodes [] (fun _ => None) 6 (fun _ _ => None) t_five ctx_new (wr_new None 0) with
+   | Out _ w None => wr_bytes w = ["0";",";"1";",";"2";",";"3";",";"4"]%byte
+   | _ => False
+   end) /\
+  run_nodes [] (fun _ => None) 60 (fun _ _ => None) t_five ctx_new (wr_new None 0) =
+  run_nodes [] (fun _ => None) 6 (fun _ _ => None) t_five ctx_new (wr_new None 0) /\
+  forallb fuel_free t_five = false /\
+  forallb fuel_free [NRaw ["a"%byte]; NCond (mkCond ["x"%byte] ["1"%byte] false true OpEq [] [] LcNone) [NBlock BTrue no_case [NExit]]] = true.
+Proof. exact budget_example. Qed.
